@@ -124,7 +124,7 @@ func (c *Client) doWithCreds(req *http.Request, count *int, credWrapper creds.Cr
 		return res, errors.New(tr.Tr.Get("failed to redirect request"))
 	}
 
-	return c.doWithAuth("", count, access, redirectedReq, via)
+	return c.doWithAuth("", count, access, redirectedReq, append(via, req))
 }
 
 // getCreds fills the authorization header for the given request if possible,
